@@ -195,7 +195,9 @@ func bindEval(op string, a []string) string {
 var bindKeys = []string{"a", "b", "z", "ctrl-a", "ctrl-x", "alt-b", "enter", "f1", "tab", "space", "esc", "up", "?", "!", "alt-enter", "ctrl-alt-a", "1", "page-up"}
 var plainActs = []string{"up", "down", "accept", "abort", "first", "last", "toggle", "toggle-all", "select-all", "clear-query", "beginning-of-line", "kill-line", "yank", "ignore"}
 var argActs = []string{"execute", "execute-silent", "reload", "change-query", "change-prompt", "print", "preview", "transform-query", "change-header", "become", "reload-sync"}
-var argTexts = []string{"echo {}", "ls -l", "a+b", "x,y", "k:v", "f(x)", "[1]", "{q}", "<tag>", "a~b", "100%", "p|q", "", "  ", "x;y", "$1", "a+b,c:d", "don't", "#!", "/", "^$", "up+down", "a)b", "q]r", "echo (nested (parens))"}
+var argTexts = []string{"echo {}", "ls -l", "a+b", "x,y", "k:v", "f(x)", "[1]", "{q}", "<tag>", "a~b", "100%", "p|q", "", "  ", "x;y", "$1", "a+b,c:d", "don't", "#!", "/", "^$", "up+down", "a)b", "q]r", "echo (nested (parens))",
+	// several lines; a line other than the last ends with a character that could close the argument
+	"x=$(date)\necho $x", "[ -f {} ]\necho ok", "a)\nb+c", "if [ 1 ]\nthen x\nfi", "<a>\n<b>", "p~\nq", "{\n}\n+x", "l1\nl2"}
 
 func renderAct(r *rand.Rand, name, arg string, last bool) (string, bool) {
 	if r.Intn(2) == 0 {
